@@ -71,6 +71,7 @@ const (
 	subSend
 	subRecv
 	subClose
+	subSelDefault // select with a default clause
 )
 
 type tstate uint8
@@ -380,6 +381,9 @@ func enabled(t *thread) bool {
 	case KStuck:
 		return false
 	case KSelect:
+		if o.sub == subSelDefault {
+			return true // a select with a default clause never waits
+		}
 		for i := 0; i < o.nsel; i++ {
 			c := &o.sel[i]
 			if c.obj == 0 {
@@ -755,9 +759,20 @@ func ChanClose(id uint64) {
 // Done-like channel (only ever closed).
 //
 //go:norace
-func Select(ids []uint64, reals []<-chan struct{}) int {
+func Select(ids []uint64, reals []<-chan struct{}) int { return selectOp(ids, reals, 0) }
+
+// TrySelect is a select with a default clause: it returns -1 when no case is ready.
+//
+//go:norace
+func TrySelect(ids []uint64, reals []<-chan struct{}) int {
+	return selectOp(ids, reals, subSelDefault)
+}
+
+//go:norace
+func selectOp(ids []uint64, reals []<-chan struct{}, sub uint8) int {
 	var o op
 	o.kind = KSelect
+	o.sub = sub
 	for i := 0; i < len(ids) && i < maxSel; i++ {
 		o.sel[i] = selCase{obj: ids[i], real: reals[i]}
 		o.nsel++
